@@ -52,7 +52,7 @@ impl Fdt {
     ) -> Fdt {
         Fdt {
             _tsi: tsi,
-            fdtid,
+            fdtid: fdtid & 0xFFFFF,
             oti: default_oti.clone(),
             files_transfer_queue: VecDeque::new(),
             fdt_transfer_queue: VecDeque::new(),
